@@ -233,10 +233,43 @@ func c07ErrorEdgesSkipSinks(r *an.Run, m *runModel) {
 	n := 0
 	for _, c := range an.Calls(m.run) {
 		call, ok := c.(*ssa.Call)
-		if !ok || !m.loop.Loop.Blocks[c.Block()] || !an.IsCallTo(c, formatNode, importsProcess, parserParse) {
+		if !ok || !m.loop.Loop.Blocks[c.Block()] {
 			continue
 		}
-		if call == m.parse {
+		if !an.IsCallTo(c, formatNode, importsProcess, parserParse) {
+			// a private helper that runs validation steps and reports their failure as its own error
+			h := an.StaticCallee(c)
+			if h == nil || !an.InModule(h) || h.Blocks == nil || an.FuncPkgPath(h) != an.FuncPkgPath(m.run) || errValue(call) == nil {
+				continue
+			}
+			inner := 0
+			for _, g := range helperGroup(h, 2) {
+				for _, ic := range an.CallsTo(g, formatNode, importsProcess, parserParse) {
+					icall, ok := ic.(*ssa.Call)
+					if !ok {
+						continue
+					}
+					inner++
+					ikey := short(g) + "|on-error|" + an.CalleeName(ic)
+					nilE := errNilEdges(icall)
+					good := len(nilE) > 0
+					if good {
+						// with the nil edges removed every reachable return of the helper is a failure
+						reach := an.ReachFromSuccs(icall.Block(), skipEdges(nilE))
+						for _, ret := range an.Returns(g) {
+							if reach[ret.Block()] && !an.ReturnsFailure(ret.Block()) {
+								good = false
+							}
+						}
+					}
+					r.Check(good, ikey, ic.Pos(), "a failure of %s makes the helper %s fail", an.CalleeName(ic), short(g))
+				}
+			}
+			if inner == 0 {
+				continue
+			}
+			n += inner - 1
+		} else if call == m.parse {
 			continue
 		}
 		n++
@@ -374,6 +407,9 @@ func slotGuard(r *an.Run, rule string) {
 	f := fn(r, engine, "FileReplacer.Replace")
 	if f == nil {
 		return
+	}
+	if _, holder, _ := matchLoop(r); holder != nil {
+		f = holder // the node stage may live in a helper of Replace
 	}
 	sets := an.CallsTo(f, rvSet)
 	for _, s := range sets {
